@@ -113,6 +113,21 @@ Theorem C13_lookat_minus_z_to_interest : forall R (O : ops R), is_ring O ->
 Proof. exact lookat_minus_z. Qed.
 Print Assumptions C13_lookat_minus_z_to_interest.
 
+(* the frame is right-handed: side = k2 * (up x front) with k2 = 1/|front x up| as toUnitVec
+   computes it, and the determinant of the linear part is k2 * |front x up|^2 *)
+Theorem C13_lookat_right_handed : forall R (O : ops R), is_ring O ->
+  (forall p q, odiv O p q = omul O p (oinv O q)) ->
+  forall eye interest up,
+  let front := toUnitVec O (vsub (osub O) eye interest) in
+  let fu := vcross (omul O) (osub O) front up in
+  let k2 := oinv O (osqrt O (vdot (oadd O) (omul O) fu fu)) in
+  mcol3 (o0 O) (lookat_matrix O eye interest up) 0 = vscale (omul O) k2 (vcross (omul O) (osub O) up front) /\
+  det3 (oadd O) (omul O) (osub O) (lookat_matrix O eye interest up) = omul O k2 (vdot (oadd O) (omul O) fu fu).
+Proof.
+  intros R O H Hd eye interest up. split; [exact (lookat_side_column R O H Hd eye interest up) | exact (lookat_det R O H Hd eye interest up)].
+Qed.
+Print Assumptions C13_lookat_right_handed.
+
 (* ---- a loaded element is the constructor applied to its floats in document order *)
 Theorem C13_loaded_is_constructed : forall R (O : ops R),
   (forall x y z, transform_matrix O (TLoaded 0 [x; y; z]) = transform_matrix O (TTranslate x y z)) /\
@@ -177,6 +192,14 @@ Theorem C13_lookat_real_points_at_interest : forall eye interest up : vec3 R, ey
     direction 0%R (vscale Rmult k (vsub Rminus interest eye)).
 Proof. exact lookat_R_minus_z. Qed.
 Print Assumptions C13_lookat_real_points_at_interest.
+
+Theorem C13_lookat_real_right_handed : forall eye interest up : vec3 R,
+  let front := toUnitVec Rops (vsub Rminus eye interest) in
+  let fu := vcross Rmult Rminus front up in
+  (vdot Rplus Rmult fu fu > 0)%R ->
+  (det3 Rplus Rmult Rminus (lookat_matrix Rops eye interest up) > 0)%R.
+Proof. exact lookat_R_right_handed. Qed.
+Print Assumptions C13_lookat_real_right_handed.
 
 (* ---- non-vacuity: the integer instance is a ring; 90 degrees about +z meets both unit
    hypotheses; order matters (translate;rotate differs from rotate;translate), so the
